@@ -15,6 +15,7 @@ import (
 	"fmt"
 	"io"
 	"math"
+	"strings"
 
 	"github.com/dapr/kit/streams"
 
@@ -478,6 +479,7 @@ func c16Run(ctx *core.Ctx, in c16Input) {
 	case "multi":
 		var readers []io.Reader
 		var srcs []*xReader
+		outOfDomain := false // a source ends with http.ErrBodyReadAfterClose: model compared, spec silent
 		coqSrcs := make([]string, len(in.Srcs))
 		totalLen := 0
 		shape := ""
@@ -493,6 +495,9 @@ func c16Run(ctx *core.Ctx, in c16Input) {
 				ctx.Sink.Count("multi/source is io.WriterTo")
 			}
 			if _, end := s.Script.Data(); end != "" {
+				if xIsBodyClosed(strings.TrimPrefix(end, "fail:")) {
+					outOfDomain = true
+				}
 				pos := "last"
 				if i < len(in.Srcs)-1 {
 					pos = "non-last"
@@ -519,6 +524,10 @@ func c16Run(ctx *core.Ctx, in c16Input) {
 		ca := counts()
 		ec, known := c16Err(res.err)
 		c.Facts["writeto"] = res.viaWriteTo
+		c.Facts["body_read_after_close_source"] = outOfDomain
+		if outOfDomain {
+			ctx.Sink.Count("multi/outside the spec's domain (a source ends with http.ErrBodyReadAfterClose): model only")
+		}
 		c.Facts["path"] = path(res)
 		c.Class = fmt.Sprintf("multi/%s/%s%s", shape, in.Consumer.Kind, stopTag(in.Consumer))
 		c.Trivial = totalLen == 0
@@ -618,7 +627,7 @@ func zeroOffsets(s xScript) []int {
 			out = append(out, off)
 		case "data":
 			off += len(it.D)
-		case "dataeof", "fail", "datafail":
+		case "dataeof", "fail", "datafail", "dataerr":
 			return out
 		}
 	}
@@ -636,8 +645,9 @@ func seqBytes(start, n int) []byte {
 // zeroScript: data with nz zero-length reads exactly at offset z (0 <= z <= len(data): z =
 // len(data) puts them between the last byte and the end).  Either side of z is one chunk, or
 // 1-byte chunks.  end: 0 = EOF alone, 1 = EOF with the last data, 2 = one more zero-length read
-// and then EOF alone, 3 = failure of the given kind, 4 = that failure together with the last data.
-const nZeroEnds = 5
+// and then EOF alone, 3 = failure of the given kind, 4 = that failure together with the last data,
+// 5 = that failure, TRANSIENT, together with the last data (the source then delivers two more bytes).
+const nZeroEnds = 6
 
 func zeroScript(data []byte, z, nz int, oneByte bool, end int, kind string) xScript {
 	var s xScript
@@ -667,6 +677,8 @@ func zeroScript(data []byte, z, nz int, oneByte bool, end int, kind string) xScr
 		s = xStyle{end: 2, kind: kind}.finish(s)
 	case 4:
 		s = xStyle{end: 3, kind: kind}.finish(s)
+	case 5:
+		s = xStyle{end: 4, kind: kind}.finish(s)
 	}
 	return s
 }
@@ -782,9 +794,9 @@ func c16Gen(ctx *core.Ctx) {
 			}
 			data := seqBytes(n, ln)
 			for z := 0; z <= ln; z++ {
-				ends := []int{0, 1, 2, 3, 4}
+				ends := []int{0, 1, 2, 3, 4, 5}
 				if !ctx.Thorough {
-					// two of the five ends per offset, all five at the limit
+					// two of the six ends per offset, all six at the limit
 					if z != n && z != n+1 {
 						k := r.Intn(nZeroEnds)
 						ends = []int{k, (k + 1 + r.Intn(nZeroEnds-1)) % nZeroEnds}
@@ -830,6 +842,36 @@ func c16Gen(ctx *core.Ctx) {
 		}
 		c16Run(ctx, c16Input{Kind: "limit", N: int64(n), Script: script,
 			Consumer: cons[r.Intn(len(cons))], Closes: c16Closes(r), SrcWT: r.Chance(1, 8), CloseErr: r.Chance(1, 6)})
+	}
+	// limit: error identities x offset.  The source fails after f = 0..3 bytes with a failure of
+	// EVERY identity (plain; wrapped io.EOF / io.ErrUnexpectedEOF; the sentinels io.ErrUnexpectedEOF,
+	// io.ErrClosedPipe, os.ErrClosed, net.ErrClosed, io.ErrNoProgress, context.Canceled,
+	// context.DeadlineExceeded, http.ErrBodyReadAfterClose, bare and wrapped), returned alone or
+	// together with the last data, with the limit below, at and above f
+	for _, kind := range xKinds {
+		for _, end := range []int{2, 3, 4, 5} {
+			for f := 0; f <= 3; f++ {
+				if end >= 3 && f == 0 {
+					continue
+				}
+				for _, n := range []int{f - 1, f, f + 1, f + 5} {
+					if n < 0 {
+						continue
+					}
+					st := xStyle{zeros: r.Chance(1, 4), end: end, kind: kind}
+					script := xGen(r, seqBytes(f, f), st, 1+r.Intn(f+1))
+					cons := c16Consumers(r, n, brOf["limit"])
+					pick := []c16Consumer{cons[r.Intn(nReadKinds)], cons[nReadKinds+r.Intn(len(cons)-nReadKinds)]}
+					if ctx.Thorough {
+						pick = cons
+					}
+					for _, c := range pick {
+						c16Run(ctx, c16Input{Kind: "limit", N: int64(n), Script: script, Consumer: c,
+							Closes: c16Closes(r), SrcWT: r.Chance(1, 8), CloseErr: r.Chance(1, 6)})
+					}
+				}
+			}
+		}
 	}
 	// limit: boundary values of the limit itself - the largest int64 (a caller's "no limit"), its
 	// neighbours, powers of two around the int32/uint32 edges, the smallest int64 - with short
@@ -920,7 +962,7 @@ func c16Gen(ctx *core.Ctx) {
 	for ns := 2; ns <= 4; ns++ {
 		for p := 0; p < ns; p++ {
 			for _, kind := range xKinds {
-				for _, end := range []int{2, 3} {
+				for _, end := range []int{2, 3, 4, 5} {
 					var srcs []c16Src
 					off := 0
 					for i := 0; i < ns; i++ {
@@ -928,7 +970,7 @@ func c16Gen(ctx *core.Ctx) {
 						st := xStyleOf(r, []int{0, 1, 2, 4}[r.Intn(4)])
 						if i == p {
 							st = xStyle{zeros: r.Chance(1, 3), end: end, kind: kind}
-							if end == 3 && ln == 0 {
+							if end >= 3 && ln == 0 {
 								ln = 1 + r.Intn(3)
 							}
 						}
@@ -966,7 +1008,7 @@ func c16Gen(ctx *core.Ctx) {
 					ln := 1 + r.Intn(3)
 					st := xStyleOf(r, []int{0, 1, 2, 4}[r.Intn(4)])
 					if scenario > 0 && i == p {
-						st = xStyle{end: 2 + r.Intn(2), kind: anyKind(r)}
+						st = xStyle{end: 2 + r.Intn(4), kind: anyKind(r)}
 					}
 					srcs = append(srcs, c16Src{Script: xGen(r, seqBytes(off, ln), st, 1+r.Intn(ln+1)),
 						Closable: true, WT: r.Chance(1, 8), CloseErr: mask&(1<<i) != 0})
@@ -1003,6 +1045,27 @@ func c16Gen(ctx *core.Ctx) {
 		c16Run(ctx, c16Input{Kind: "tee", Script: xGen(r, seqBytes(k, ln), xStyleOf(r, r.Intn(nXStyles)), 1+r.Intn(ln+1)), Budget: budget,
 			Consumer: cons[k%len(cons)], Closes: c16Closes(r), SrcWT: r.Chance(1, 8),
 			CloseErr: r.Chance(1, 5), WCloseErr: r.Chance(1, 5)})
+	}
+	// tee: error identities x offset (as for limit)
+	for _, kind := range xKinds {
+		for _, end := range []int{2, 3, 4, 5} {
+			for f := 0; f <= 3; f++ {
+				if end >= 3 && f == 0 {
+					continue
+				}
+				st := xStyle{zeros: r.Chance(1, 4), end: end, kind: kind}
+				script := xGen(r, seqBytes(f, f), st, 1+r.Intn(f+1))
+				cons := c16Consumers(r, 4, brOf["tee"])
+				pick := copyAndOne(r, cons)
+				if ctx.Thorough {
+					pick = cons
+				}
+				for _, c := range pick {
+					c16Run(ctx, c16Input{Kind: "tee", Script: script, Consumer: c,
+						Closes: c16Closes(r), SrcWT: r.Chance(1, 8), CloseErr: r.Chance(1, 5), WCloseErr: r.Chance(1, 5)})
+				}
+			}
+		}
 	}
 	// tee: a zero-length read at every offset, every end style, the copy family
 	maxLen = 5
